@@ -100,11 +100,11 @@ Qed.
 
 Lemma has_language_eq p : has_language p = is_source_file p.
 Proof.
-  unfold has_language, is_source_file, is_source_name.
+  unfold has_language, is_source_file, has_ext_in.
   pose proof ext_tables_agree_true as H. unfold ext_tables_agree in H.
   apply andb_true_iff in H. destruct H as (H & _). apply andb_true_iff in H. destruct H as (H & _).
   apply andb_true_iff in H. destruct H as (H1 & H2). rewrite forallb_forall in H1, H2.
-  set (e := suffix (last p ""%string)).
+  set (e := splitext_ext (last p ""%string)).
   destruct (existsb (String.eqb e) source_extensions) eqn:E1.
   - apply existsb_exists in E1. destruct E1 as (x & Hx & E). apply String.eqb_eq in E. subst x.
     apply H1 in Hx. rewrite existsb_exists in Hx. destruct Hx as (y & Hy & E). apply String.eqb_eq in E. subst y.
